@@ -5,6 +5,7 @@
 #include <ArduinoJson.h>
 #include <cstdio>
 #include <string>
+#include <vector>
 using namespace ArduinoJson;
 static void hex(const std::string& s) { if (s.empty()) printf("-"); for (unsigned char c : s) printf("%02x", c); }
 int main() {
@@ -13,14 +14,17 @@ int main() {
     "[]", "{}", "[1]", "[1,2,3]", "[[],[[]],{}]", "{\"a\":1}", "{\"a\":1,\"b\":[true,null],\"c\":{\"d\":\"e\"}}", "[0,1,2,3,4,5,6,7,8,9,10,11,12,13,14]", "[0,1,2,3,4,5,6,7,8,9,10,11,12,13,14,15]",
     "{\"a\":0,\"b\":1,\"c\":2,\"d\":3,\"e\":4,\"f\":5,\"g\":6,\"h\":7,\"i\":8,\"j\":9,\"k\":10,\"l\":11,\"m\":12,\"n\":13,\"o\":14,\"p\":15}", "{\"k\":1,\"k\":2}", "[1.0,2.5,-0.0,1e-7,123456789.125]",
     "{\"\":\"\",\"x\":[{\"y\":[{\"z\":null}]}]}"};
+  // two more texts built here: strings of 255 and 256 bytes (str 8 / str 16 boundary)
+  static std::string s255 = "\"" + std::string(255, 'z') + "\"", s256 = "[\"" + std::string(256, 'y') + "\"]";
+  std::vector<const char*> all(docs, docs + sizeof docs / sizeof docs[0]); all.push_back(s255.c_str()); all.push_back(s256.c_str());
   printf("doc_rows");
-  for (const char* t : docs) {
+  for (const char* t : all) {
     JsonDocument d; deserializeJson(d, (const char*)t, DeserializationOption::NestingLimit(20));
     std::string c, p, m; serializeJson(d, c); serializeJsonPretty(d, p); serializeMsgPack(d, m);
     printf(" "); hex(t); printf(":"); hex(c); printf(":"); hex(p); printf(":"); hex(m);
   }
   printf("\nmpback_rows");
-  for (const char* t : docs) {
+  for (const char* t : all) {
     JsonDocument d; deserializeJson(d, (const char*)t, DeserializationOption::NestingLimit(20));
     std::string m; serializeMsgPack(d, m);
     JsonDocument d2; DeserializationError e = deserializeMsgPack(d2, m, DeserializationOption::NestingLimit(20));
